@@ -23,12 +23,14 @@ def marshalGuarded : Bool := covers (caughtAt "marshal.load") marshalExc
 
 /-- the statement order the model transcribes: read magic, compare, unpickle the checksum, compare, unmarshal; and
     the writer emits the parts in the order the loader reads them; `get_bucket` computes the checksum from the current
-    source and `BaseLoader.load` compiles exactly when the bucket came back empty -/
+    source and `BaseLoader.load` compiles exactly when the bucket came back empty; the checksum is the SHA-1 of the whole unmodified source (the
+    injectivity hypothesis of `history_fresh` is SHA-1's, not weakened by any normalisation) -/
 theorem load_shape :
     loadSteps = [.readMagic, .checkMagic, .loadChecksum (caughtAt "pickle.load"), .checkChecksum,
                  .loadCode (caughtAt "marshal.load")] ∧
     writeParts = ["magic", "checksum", "code"] ∧ checksumInputs = ["source"] ∧ getBucketShape = true ∧
-    setBucketDumps = true ∧ loaderLoadShape = true := by decide
+    setBucketDumps = true ∧ loaderLoadShape = true ∧ clearUsesPattern = true ∧
+    checksumIsSha1OfWholeSource = true ∧ keyIsSha1OfNameAndFilename = true := by decide
 
 /-! ### load_total -/
 
@@ -79,42 +81,20 @@ theorem load_total_of_guarded (cfg : LoadCfg) (hp : covers cfg.pickleCaught pick
           rw [caught_of_contract cm hm he]; rfl
         · rfl
 
-/-- the `marshal.load` call site is guarded (re-proved over the handlers read from the source) -/
-theorem marshal_site_guarded : marshalGuarded = true := by decide
+/-- both decoder call sites are guarded (re-proved over the handlers read from the source on every run) -/
+theorem decoder_sites_guarded : pickleGuarded = true ∧ marshalGuarded = true := by decide
 
-/-- `load_total` as far as it holds on this tree: whatever the magic, for every byte string, checksum and decoders
-    within their contracts, `Bucket.load_bytecode` ends in a miss or a hit, or else the exception is the one `pickle.load`
-    raised AND the source has no covering handler around that call (`pickleGuarded = false`, F10b).  Once the call is
-    guarded this is the full statement `LoadTotal`. -/
-theorem load_total_partial (magic : Bytes) {Ck Code : Type} [DecidableEq Ck] (pl : Bytes → Dec Ck) (ml : Bytes → Dec Code)
-    (cp : Contract pl pickleExc) (cm : Contract ml marshalExc) (ck : Ck) (b : Bytes) :
-    (loadBytecode (genCfg magic) pl ml ck b).quiet = true ∨
-    (pickleGuarded = false ∧ ∃ e, pl (b.drop magic.length) = .raise e ∧ loadBytecode (genCfg magic) pl ml ck b = .raises e) := by
-  by_cases hg : pickleGuarded = true
-  · exact Or.inl (load_total_of_guarded (genCfg magic) hg marshal_site_guarded pl ml cp cm ck b)
-  · have hg' : pickleGuarded = false := by simpa using hg
-    unfold loadBytecode
-    split
-    · exact Or.inl rfl
-    · split
-      · rename_i e he
-        by_cases hc : catches (genCfg magic).pickleCaught e = true
-        · rw [if_pos hc]; exact Or.inl rfl
-        · rw [if_neg hc]; exact Or.inr ⟨hg', e, he, rfl⟩
-      · split
-        · exact Or.inl rfl
-        · split
-          · rename_i e he
-            have := caught_of_contract (caught := (genCfg magic).marshalCaught) cm marshal_site_guarded he
-            rw [this]; exact Or.inl rfl
-          · exact Or.inl rfl
-
-/-- every decoder call site but the ones listed is guarded: on this tree the list is exactly `["pickle.load"]`;
-    it must shrink to `[]` when F10b is fixed and cannot grow without breaking this proof -/
+/-- no decoder call of `Bucket.load_bytecode` is outside a handler covering its exception set -/
 def unguardedSites : List String :=
   (decoderSites.filter (fun s => !covers s.caught (if s.call == "pickle.load" then pickleExc else marshalExc))).map (·.call)
 
-theorem unguarded_sites_known : ∀ c ∈ unguardedSites, c = "pickle.load" := by decide
+theorem no_unguarded_sites : unguardedSites = [] := by decide
+
+/-- **load_total** (full strength): whatever the magic, for every byte string (every prefix of a valid entry, entries of
+    other sources, other magic, damaged entries), every bucket checksum and decoders within their contracts,
+    `Bucket.load_bytecode` with the handlers as they are in the source ends in a miss or a hit and raises nothing -/
+theorem load_total (magic : Bytes) : LoadTotal (genCfg magic) :=
+  load_total_of_guarded (genCfg magic) decoder_sites_guarded.1 decoder_sites_guarded.2
 
 /-! ### load_sound -/
 
@@ -174,6 +154,9 @@ example : loadBytecode (genCfg [7, 7]) exDec exDec 5 (writeBytecode [7, 7] (fun 
 example : loadBytecode (genCfg [7, 7]) exDec exDec 6 (writeBytecode [7, 7] (fun n => [n]) (fun n => [n]) 5 9) = .miss := by decide
 example : loadBytecode (Code := Nat) (genCfg [7, 7]) exDec exDec 5 [7, 7, 5] = .miss := by decide   -- cut before the code
 example : Contract exDec pickleExc := exDec_contract _ (by decide) (by decide)
+example : (loadBytecode (Code := Nat) (genCfg [7, 7]) exDec exDec 5 [7, 7]).quiet = true :=
+  load_total [7, 7] exDec exDec (exDec_contract _ (by decide) (by decide)) (exDec_contract _ (by decide) (by decide)) 5 [7, 7]
+example : loadBytecode (Code := Nat) (genCfg [7, 7]) exDec exDec 5 [7, 7] = .miss := by decide   -- cut right after the magic
 example : Contract exDec marshalExc := exDec_contract _ (by decide) (by decide)
 
 /-! ### memcache_errors -/
@@ -293,6 +276,38 @@ theorem fs_crash_safe (name rnd : String) (chunks : List Bytes) (d : Dir) (k : N
 
 example : runOps "e.x.tmp" "e" [("e", [1])] ((expand [[7], [8]] dumpSteps).take 3) = [("e.x.tmp", [7, 8]), ("e", [1])] := by decide
 example : runOps "e.x.tmp" "e" [("e", [1])] (expand [[7], [8]] dumpSteps) = [("e", [7, 8])] := by decide
+
+/-! ### leftover temporaries (a crash between create and replace leaves one behind) -/
+
+/-- a leftover temporary is never opened as a cache entry: for every pattern, every key and every other key of the same
+    length (keys are SHA-1 hex digests) its name differs from the file name `load_bytecode` opens -/
+theorem leftover_tmp_never_loaded (pre post key key' rnd : List Char) (hk : key'.length = key.length) :
+    tmpFile pre post key rnd (tmpSuffix dumpSteps).toList ≠ entryFile pre post key' := by
+  intro h
+  have h1 := congrArg List.length h
+  have h2 : (tmpSuffix dumpSteps).toList.length > 0 := by decide
+  simp only [tmpFile, entryFile, List.length_append, hk] at h1
+  omega
+
+/-- with the default pattern `clear()`'s glob does not match a leftover temporary either: `clear()` neither mistakes it for
+    an entry nor removes it (temporaries of crashed writers accumulate until removed by other means) -/
+theorem leftover_tmp_not_matched_by_clear (key rnd : List Char) :
+    globMatch defaultPatternPre.toList defaultPatternPost.toList
+      (tmpFile defaultPatternPre.toList defaultPatternPost.toList key rnd (tmpSuffix dumpSteps).toList) = false := by
+  have hs : (tmpSuffix dumpSteps).toList = ['.', 't', 'm', 'p'] := by decide
+  have hp : defaultPatternPost.toList = ['.', 'c', 'a', 'c', 'h', 'e'] := by decide
+  have : List.isSuffixOf defaultPatternPost.toList
+      (tmpFile defaultPatternPre.toList defaultPatternPost.toList key rnd (tmpSuffix dumpSteps).toList) = false := by
+    rw [hs, hp]
+    simp [tmpFile, List.isSuffixOf, List.reverse_append, List.isPrefixOf]
+  simp [globMatch, this]
+
+/-- while every complete entry IS matched by `clear()`'s glob (so `clear()` empties the cache), for every key -/
+theorem entry_matched_by_clear (pre post key : List Char) : globMatch pre post (entryFile pre post key) = true := by
+  simp [globMatch, entryFile, List.isSuffixOf, List.reverse_append]
+
+example : globMatch "__jinja2_".toList ".cache".toList "__jinja2_ab.cachexyz.tmp".toList = false := by decide
+example : globMatch "__jinja2_".toList ".cache".toList "__jinja2_ab.cache".toList = true := by decide
 
 /-! ### fs_fault_safe: exceptions instead of crashes -/
 
